@@ -3,7 +3,13 @@
 // C01 / C03 / C11 / C13).  Nothing is scripted; the property texts are checked on what the raw peers receive and on
 // the callbacks the server sees.
 //
-//   Conn_soak <ioThreads> <connections> <seed> <eintrSignals 0|1>
+//   Conn_soak <ioThreads> <connections> <seed> <eintrSignals 0|1> [c13]
+//
+// With `c13` every connection is an echo connection (all sends on the loop thread) and the write-complete /
+// high-water callbacks are checked EXACTLY: write() on the connection descriptors is interposed (pass-through,
+// -Wl,--wrap=write) and logged together with the size of every send(); replaying that log through the property
+// text (backlog arithmetic only) gives the number of write-completes and the list of high-water values that must
+// have been delivered; the kernel send buffer is pinned to 4 KiB so that crossings of the 64 KiB mark happen.
 //
 // Connection kinds (round-robin over the connections):
 //   E  echo: the raw client writes U pseudo-random bytes in random chunks, then reads them back (slowly at first, so
@@ -60,6 +66,38 @@ static std::mutex g_mu;
 static std::vector<string> g_fail;
 static std::atomic<int> g_ups(0), g_downs(0), g_wc(0), g_hwm(0), g_signals(0);
 static std::atomic<unsigned long long> g_up_bytes(0), g_down_bytes(0), g_frames(0);
+
+// ---- exact C13 bookkeeping (mode c13): per connection, in loop-thread order: S len | W offered result; and what was delivered
+struct ConnLog
+{
+  std::vector<std::pair<char, std::pair<long, long> > > ev;
+  int wc;
+  std::vector<size_t> hw;
+  ConnLog() : wc(0) {}
+};
+static bool g_c13 = false;
+static std::mutex g_logmu;
+static std::map<int, std::shared_ptr<ConnLog> > g_byfd;
+static std::map<string, std::shared_ptr<ConnLog> > g_logs;
+
+extern "C" ssize_t __real_write(int fd, const void* buf, size_t n);
+extern "C" ssize_t __wrap_write(int fd, const void* buf, size_t n)
+{
+  ssize_t r = __real_write(fd, buf, n);
+  if (g_c13)
+  {
+    int saved = errno;
+    std::shared_ptr<ConnLog> lg;
+    {
+      std::lock_guard<std::mutex> l(g_logmu);
+      auto it = g_byfd.find(fd);
+      if (it != g_byfd.end()) lg = it->second;
+    }
+    if (lg) lg->ev.push_back(std::make_pair('W', std::make_pair(static_cast<long>(n), static_cast<long>(r))));
+    errno = saved;
+  }
+  return r;
+}
 
 static void fail(const char* prop, const string& msg)
 {
@@ -145,8 +183,16 @@ static void onConnection(const TcpConnectionPtr& conn)
     // a small kernel send buffer, so that short writes, EAGAIN and a real backlog happen on loopback too
     int small = 4096;
     ::setsockopt(conn->socket_->fd(), SOL_SOCKET, SO_SNDBUF, &small, sizeof small);
+    if (g_c13)
+    {
+      std::lock_guard<std::mutex> l(g_logmu);
+      std::shared_ptr<ConnLog> lg(new ConnLog);
+      g_byfd[conn->socket_->fd()] = lg;
+      g_logs[conn->name()] = lg;
+    }
     conn->setHighWaterMarkCallback([](const TcpConnectionPtr& c, size_t n) {
       ++g_hwm;
+      if (g_c13) { std::lock_guard<std::mutex> l(g_logmu); g_logs[c->name()]->hw.push_back(n); }
       if (!c->getLoop()->isInLoopThread()) fail("C13", "high-water callback off the loop thread");
       if (n < kMark) fail("C13", "high-water callback with " + std::to_string(n) + " < mark");
     }, kMark);
@@ -154,6 +200,7 @@ static void onConnection(const TcpConnectionPtr& conn)
   else
   {
     ++g_downs;
+    if (g_c13) { std::lock_guard<std::mutex> l(g_logmu); g_byfd.erase(conn->socket_->fd()); }
     if (++info->downs != 1) fail("C03", "DOWN " + std::to_string(info->downs) + " times for " + conn->name());
     if (info->ups != 1) fail("C03", "DOWN without UP for " + conn->name());
   }
@@ -199,6 +246,11 @@ static void onMessage(const TcpConnectionPtr& conn, Buffer* buf, Timestamp)
   {
     // echo with alternating overloads
     static std::atomic<int> n(0);
+    if (g_c13 && conn->connected())
+    {
+      std::lock_guard<std::mutex> l(g_logmu);
+      g_logs[conn->name()]->ev.push_back(std::make_pair('S', std::make_pair(static_cast<long>(buf->readableBytes()), 0L)));
+    }
     if ((n++ & 1) == 0) conn->send(buf);
     else { string s = buf->retrieveAllAsString(); conn->send(s); }
   }
@@ -208,6 +260,7 @@ static void onMessage(const TcpConnectionPtr& conn, Buffer* buf, Timestamp)
 static void onWriteComplete(const TcpConnectionPtr& conn)
 {
   ++g_wc;
+  if (g_c13) { std::lock_guard<std::mutex> l(g_logmu); ++g_logs[conn->name()]->wc; }
   if (!conn->getLoop()->isInLoopThread()) fail("C13", "write-complete callback off the loop thread");
 }
 
@@ -228,8 +281,10 @@ static void clientThread(uint16_t port, int idx, uint32_t seed)
   sigset_t ss; sigemptyset(&ss); sigaddset(&ss, SIGUSR1); pthread_sigmask(SIG_BLOCK, &ss, NULL);
   Rng r(seed);
   static const char kinds[] = {'E', 'F', 'E', 'C', 'F', 'D'};
-  char kind = kinds[idx % 6];
+  char kind = g_c13 ? 'E' : kinds[idx % 6];
   int fd = ::socket(AF_INET, SOCK_STREAM | SOCK_CLOEXEC, 0);
+  struct timeval tmo = {8, 0};     // a peer that hears nothing for 8 s reports it instead of hanging
+  ::setsockopt(fd, SOL_SOCKET, SO_RCVTIMEO, &tmo, sizeof tmo);
   int small = 8192;
   if (kind == 'E' || kind == 'F') ::setsockopt(fd, SOL_SOCKET, SO_RCVBUF, &small, sizeof small);
   struct sockaddr_in sa; memset(&sa, 0, sizeof sa);
@@ -278,6 +333,7 @@ static void clientThread(uint16_t port, int idx, uint32_t seed)
     {
       ssize_t n = ::read(fd, buf, slow > 0 ? 1 + r.below(2048) : sizeof buf);
       if (n < 0 && errno == EINTR) continue;
+      if (n < 0 && (errno == EAGAIN || errno == EWOULDBLOCK)) { fail("C03", tag + " no end-of-stream within 8 s after " + std::to_string(all.size()) + " bytes: the half-close never came"); break; }
       if (n < 0) { fail("C03", tag + " stream ended with " + strerror(errno) + " instead of end-of-stream"); break; }
       if (n == 0) break;
       all.append(buf, static_cast<size_t>(n));
@@ -354,6 +410,7 @@ int main(int argc, char** argv)
   int ioThreads = atoi(argv[1]), nconn = atoi(argv[2]);
   uint32_t seed = static_cast<uint32_t>(atol(argv[3]));
   bool eintr = atoi(argv[4]) != 0;
+  g_c13 = argc > 5 && string(argv[5]) == "c13";
   Logger::setOutput(nullOutput);
   Logger::setFlush(nullFlush);
   signal(SIGPIPE, SIG_IGN);
@@ -424,7 +481,58 @@ int main(int argc, char** argv)
   int leaked = countFds() - fds0;
   if (leaked != 0) fail("C11", std::to_string(leaked) + " descriptor(s) left open after the server and all connections are gone");
   if (g_wc.load() == 0) fail("C13", "no write-complete callback although bytes were sent");
+  long exact_wc = 0, exact_hw = 0;
+  if (g_c13)
+  {
+    for (auto& kv : g_logs)
+    {
+      ConnLog& lg = *kv.second;
+      size_t b = 0;            // the backlog, from the log alone
+      int wc = 0;
+      std::vector<size_t> hw;
+      bool bad = false;
+      for (size_t i = 0; i < lg.ev.size() && !bad; ++i)
+      {
+        char t = lg.ev[i].first;
+        long a = lg.ev[i].second.first, r = lg.ev[i].second.second;
+        if (t == 'S')
+        {
+          size_t len = static_cast<size_t>(a), rem = len, old = b;
+          if (b == 0)
+          {
+            // nothing queued: sendInLoop writes directly; the next entry is that write
+            if (i + 1 >= lg.ev.size() || lg.ev[i + 1].first != 'W' || lg.ev[i + 1].second.first != a) { bad = true; break; }
+            long w = lg.ev[++i].second.second;
+            rem = len - static_cast<size_t>(w > 0 ? w : 0);
+            if (w >= 0 && rem == 0) ++wc;
+          }
+          if (rem > 0)
+          {
+            b = old + rem;
+            if (old < kMark && b >= kMark) hw.push_back(b);
+          }
+        }
+        else
+        {
+          // a drain: the whole backlog is offered
+          if (static_cast<size_t>(a) != b || b == 0) { bad = true; break; }
+          if (r > 0) { b -= static_cast<size_t>(r); if (b == 0) ++wc; }
+        }
+      }
+      if (bad) { fail("C01", kv.first + ": the log of send()/write() calls does not fit sendInLoop/handleWrite (a write without a backlog, or not of the whole backlog)"); continue; }
+      exact_wc += wc; exact_hw += static_cast<long>(hw.size());
+      if (lg.wc != wc) fail("C13", kv.first + ": write-complete ran " + std::to_string(lg.wc) + " times, the backlog became empty " + std::to_string(wc) + " times");
+      if (lg.hw != hw)
+      {
+        string got, want;
+        for (size_t v : lg.hw) got += std::to_string(v) + " ";
+        for (size_t v : hw) want += std::to_string(v) + " ";
+        fail("C13", kv.first + ": high-water callbacks [" + got + "], upward crossings of the mark [" + want + "]");
+      }
+    }
+  }
   for (size_t i = 0; i < g_fail.size(); ++i) printf("%s\n", g_fail[i].c_str());
+  if (g_c13) printf("exact wc_expected=%ld hw_expected=%ld\n", exact_wc, exact_hw);
   printf("soak poller=%s threads=%d conns=%d up_bytes=%llu down_bytes=%llu frames=%llu wc=%d hwm=%d signals=%d ups=%d downs=%d leaked=%d\n",
          ::getenv("MUDUO_USE_POLL") ? "poll" : "epoll", ioThreads, nconn, g_up_bytes.load(), g_down_bytes.load(), g_frames.load(),
          g_wc.load(), g_hwm.load(), g_signals.load(), g_ups.load(), g_downs.load(), leaked);
